@@ -343,6 +343,50 @@ Section Tramp.
     intros A B w. cbn. rewrite run_sync_bind, A. destruct (run_sync inner' w) as [[r1 w1] t1]. rewrite B. reflexivity.
   Qed.
 
+  (* ---- no cancellation out of thin air ----
+     [bad r]: the result [r] is "CancelledError raised".  A tree is [nc_safe] when it can only end badly
+     after the event loop handed it a cancellation (at an await or at a shield) *)
+  Variable bad : R -> Prop.
+  Inductive nc_safe : prog -> Prop :=
+  | nc_ret r : ~ bad r -> nc_safe (Ret r)
+  | nc_await i k : (forall x, x <> inr cancelled -> nc_safe (k x)) -> nc_safe (Await i k)
+  | nc_shield inner k : nc_safe inner -> (forall r, ~ bad r -> nc_safe (k false r)) -> nc_safe (Shield inner k).
+
+  Lemma nc_bind p f : nc_safe p -> (forall r, ~ bad r -> nc_safe (f r)) -> nc_safe (bind p f).
+  Proof.
+    induction 1; intros Hf; cbn.
+    - auto.
+    - constructor. auto.
+    - constructor; auto.
+  Qed.
+
+  Lemma nc_peq p q : peq p q -> nc_safe p -> nc_safe q.
+  Proof.
+    induction 1; intros Hn; inversion Hn; subst; constructor; auto.
+  Qed.
+
+  Lemma nc_run p : nc_safe p -> (forall w i, fst (step w i) <> inr cancelled) ->
+    forall w cs, quiet cs -> let '(r, _, _, _) := run_loop p w cs in ~ bad r.
+  Proof.
+    intros Hn Hstep. induction Hn as [r Hr | i k Hk IH | inner k Hi IHi Hk IHk]; intros w cs Hq; cbn.
+    - exact Hr.
+    - destruct (suspends i).
+      + destruct cs as [|d cs1].
+        * pose proof (Hstep w i) as Hs. destruct (step w i) as [x w1]. cbn in Hs.
+          specialize (IH x Hs w1 [] Hq). destruct (run_loop (k x) w1 []) as [[[r w2] cs2] t]. exact IH.
+        * apply quiet_tail in Hq. destruct Hq as [-> Hq].
+          pose proof (Hstep w i) as Hs. destruct (step w i) as [x w1]. cbn in Hs.
+          specialize (IH x Hs w1 cs1 Hq). destruct (run_loop (k x) w1 cs1) as [[[r w2] cs2] t]. exact IH.
+      + pose proof (Hstep w i) as Hs. destruct (step w i) as [x w1]. cbn in Hs.
+        specialize (IH x Hs w1 cs Hq). destruct (run_loop (k x) w1 cs) as [[[r w2] cs2] t]. exact IH.
+    - assert (Hn0 : quiet []) by constructor.
+      specialize (IHi w [] Hn0). destruct (run_loop inner w []) as [[[r1 w1] c1] t1].
+      destruct cs as [|d cs1].
+      + specialize (IHk r1 IHi w1 [] Hn0). destruct (run_loop (k false r1) w1 []) as [[[r w2] cs2] t2]. exact IHk.
+      + apply quiet_tail in Hq. destruct Hq as [-> Hq].
+        specialize (IHk r1 IHi w1 cs1 Hq). destruct (run_loop (k false r1) w1 cs1) as [[[r w2] cs2] t2]. exact IHk.
+  Qed.
+
   (* the decisions left over never contain more cancellations than the ones supplied *)
   Lemma run_loop_ncancel p : forall w cs,
     let '(_, _, cs', _) := run_loop p w cs in ncancel cs' <= ncancel cs.
@@ -379,3 +423,4 @@ Arguments spawn_loop {IO V E R} no_await require switch_occurred g.
 Arguments greenlet_spawn {IO V E R} no_await require fn.
 Arguments switches {IO V E R} p.
 Arguments seqv {IO V E W R} step p q.
+Arguments nc_safe {IO V E R} cancelled bad _.
